@@ -58,8 +58,57 @@ BOOL = DType('bool', 'b')
 OBJECT = DType('object', 'O')
 
 
+OPAQUE = {}      # atom name -> (function name, arguments) of every opaque application created
+
+
 def opaque(name, *args):
-    return Poly.sym('%s(%s)' % (name, ', '.join(repr(a) for a in args)))
+    atom = '%s(%s)' % (name, ', '.join(repr(a) for a in args))
+    OPAQUE[atom] = (name, args)
+    return Poly.sym(atom)
+
+
+def numeric_value(v, digits=40):
+    """High precision decimal value of a Poly whose atoms are opaque log / log2 / sqrt / exp applications of concrete
+    rationals (configuration arithmetic such as `int(log2(n - 1) - c)`); None when it is not of that form."""
+    import decimal
+    ctx = decimal.Context(prec=digits)
+    c = ndarr.concrete_real(v)
+    if c is not None:
+        return ctx.divide(decimal.Decimal(Fr(c).numerator), decimal.Decimal(Fr(c).denominator))
+    if not isinstance(v, Poly):
+        return None
+    tot = decimal.Decimal(0)
+    for mono, coef in v.t.items():
+        if not coef.is_rational():
+            return None
+        q = coef.rational()
+        term = ctx.divide(decimal.Decimal(q.numerator), decimal.Decimal(q.denominator))
+        for atom, e in mono:
+            if atom not in OPAQUE or e.denominator != 1:
+                return None
+            fname, args = OPAQUE[atom]
+            if len(args) != 1:
+                return None
+            a = numeric_value(args[0], digits)
+            if a is None:
+                return None
+            if fname in ('log', 'log2', 'log10'):
+                if a <= 0:
+                    return None
+                val = ctx.ln(a)
+                if fname == 'log2':
+                    val = ctx.divide(val, ctx.ln(decimal.Decimal(2)))
+                elif fname == 'log10':
+                    val = ctx.divide(val, ctx.ln(decimal.Decimal(10)))
+            elif fname == 'sqrt':
+                val = ctx.sqrt(a)
+            elif fname == 'exp':
+                val = ctx.exp(a)
+            else:
+                return None
+            term = ctx.multiply(term, ctx.power(val, int(e)))
+        tot = ctx.add(tot, term)
+    return tot
 
 
 def exact_sqrt(q):
@@ -924,6 +973,14 @@ class Models(object):
                 h = getattr(v, 'int_', None)
                 if h is not None:
                     return h()
+                d = numeric_value(v)
+                if d is not None:
+                    import decimal
+                    nearest = d.to_integral_value()
+                    if abs(d - nearest) < decimal.Decimal('1e-9'):
+                        raise AnalysisError('np.int_(%r): the value is within 1e-9 of an integer; the double precision '
+                                            'result depends on the last ulp and is not decided' % (v,))
+                    return int(d)         # truncation toward zero, as numpy does
                 raise AnalysisError('np.int_ of symbolic value %r' % (v,))
             return int(c)
         return ew1(f, x)
